@@ -7,7 +7,7 @@ C05 over whole HISTORIES — "failed operations leave no trace; a running node a
 `XV/Props/C05.lean` proves the per-operation facts (a refused `doTx` / `play` / `playForMiner` / `confirm` / `truncate`
 returns the tables unchanged; a walk step applies its whole block or nothing). The property quantifies over all
 histories in which valid operations are interleaved with failing ones; this file closes that quantifier, by induction over
-the operation list (no bound on its length), in the three history frameworks of the project:
+the operation list (no bound on its length), in each of the history frameworks of the project:
 
 1. the state machine (C01: `HOp`, `hstep`, `hrun`): `hopFails`, `liveOps` / `keptOps`, `failed_ops_leave_no_trace`,
    `failed_ops_leave_no_trace_walks`, `failed_ops_unobservable`, `failing_ops_insertable`,
@@ -273,6 +273,10 @@ example : FailuresInserted xEnv xS0 [.play 0 2, .submit 0 22, .submit 0 23, .wal
 -- a block of three failing operations between two parts of a history
 example : ∀ f ∈ [HOp.submit 0 24, .play 0 3, .playMiner 0 4],
     isWalk f = false ∧ hopFails xEnv (hrun xEnv xS0 [.play 0 2, .submit 0 22]) f = true := by decide
+example : hrun xEnv xS0 ([.play 0 2, .submit 0 22] ++ [.submit 0 24, .play 0 3, .playMiner 0 4] ++ [.submit 0 23]) =
+    hrun xEnv xS0 ([.play 0 2, .submit 0 22] ++ [.submit 0 23]) :=
+  failing_block_insertable xEnv xS0 [.play 0 2, .submit 0 22] [.submit 0 24, .play 0 3, .playMiner 0 4] [.submit 0 23]
+    (by decide)
 -- the final state, computed: block 3, pool [23]; with the failing walks: block 3, pool [25], irreversible height 1
 example : (hrun xEnv xS0 xOps).pointer = 3 ∧ (hrun xEnv xS0 xOps).pool = [23] ∧
     (hrun xEnv xS0 xOpsW).pointer = 3 ∧ (hrun xEnv xS0 xOpsW).pool = [25] ∧ (hrun xEnv xS0 xOpsW).irrev = 1 := by decide
@@ -557,6 +561,12 @@ example : lrun xL0 xLOps = lrun xL0 [.confirm 2 1 [(20, true), (21, false)], .co
   have h : ledgerLiveOps xL0 xLOps = [.confirm 2 1 [(20, true), (21, false)], .confirm 3 1 [(30, true), (31, false)],
     .confirm 4 3 [(40, true), (41, false)], .truncate 3] := by decide
   rw [← h]; exact ledger_failed_ops_leave_no_trace xL0 xLOps
+
+-- two failing operations (block 2 with other contents: already stored; an unknown truncation target) put after the first
+example : lrun xL0 (xLOps.take 1 ++ [.confirm 2 1 [], .truncate 7] ++ xLOps.drop 1) =
+    lrun xL0 (xLOps.take 1 ++ xLOps.drop 1) :=
+  ledger_failing_block_insertable xL0 (xLOps.take 1) [.confirm 2 1 [], .truncate 7] (xLOps.drop 1) (by decide)
+example : LedgerFailuresInserted xL0 (ledgerLiveOps xL0 xLOps) xLOps := (ledgerLiveOps_spec xL0 xLOps).2.1
 
 -- ====================================================================================================================
 --                              4. the node of the crash model: persisted image, storage write errors, restart
@@ -928,6 +938,12 @@ example : opFails xEnv (run xEnv xN0 (xNOps.take 12)) (.walk 5 false) = true ∧
     (run xEnv xN0 (xNOps.take 12)).s.pool = [22] ∧ (run xEnv xN0 (xNOps.take 13)).s.pool = [] ∧
     (run xEnv xN0 (xNOps.take 13)).s.pointer = 2 ∧ (run xEnv xN0 xNOps).s.pool = [25] ∧
     (run xEnv xN0 xNOps).l.tip = 5 := by decide
+-- a failing operation in the middle (block 2 confirmed a second time): the node, i.e. the persisted image, is unchanged
+example : runOp xEnv (run xEnv xN0 (xNOps.take 3)) (.confirm 2) = run xEnv xN0 (xNOps.take 3) :=
+  (failed_op_image_unchanged xEnv (run xEnv xN0 (xNOps.take 3)) (.confirm 2) (by decide) rfl).1
+-- the failing walk (operation 12): one batch was written, the roll-back of the pool (nothing to undo, block 5 refused)
+example : (opTrace xEnv (run xEnv xN0 (xNOps.take 12)) (.walk 5 false)).length = 1 ∧
+    undoTodo xEnv (run xEnv xN0 (xNOps.take 12)).s.pointer 5 = ([], [5]) := by decide
 -- quiescent moments of the history: after the first ten operations (six of them failed) the node is synchronised
 example : Synced (run xEnv xN0 (xNOps.take 10)) ∧ ¬ Synced (run xEnv xN0 (xNOps.take 2)) ∧
     ¬ Synced (run xEnv xN0 xNOps) := by decide
@@ -945,6 +961,14 @@ example :
     ((faultImage xEnv m (.walk 3 false) 1).s.pointer, (faultImage xEnv m (.walk 3 false) 1).s.pool) = (2, []) ∧
     ((faultImage xEnv m (.walk 3 false) 2).s.pointer, (faultImage xEnv m (.walk 3 false) 2).s.pool) = (1, []) ∧
     ((faultImage xEnv m (.walk 3 false) 3).s.pointer, (faultImage xEnv m (.walk 3 false) 3).s.pool) = (3, []) := by decide
+-- a history with refused operations and write errors that ends at a quiescent moment
+example : Synced (frun xEnv xN0 [.run (.submit 24), .run (.confirm 2), .fault (.play 2) 0, .run (.play 2),
+    .fault (.submit 22) 0, .run (.play 3)]) := by decide
+example : recover xEnv (frun xEnv xN0 [.run (.submit 24), .run (.confirm 2), .fault (.play 2) 0, .run (.play 2),
+      .fault (.submit 22) 0, .run (.play 3)]) =
+    (frun xEnv xN0 [.run (.submit 24), .run (.confirm 2), .fault (.play 2) 0, .run (.play 2), .fault (.submit 22) 0,
+      .run (.play 3)], true) :=
+  (quiescent_reopen_same_faults xEnv xN0 _ (by decide)).1
 -- a history with refused operations and write errors; what is kept
 example : keepG (fstep xEnv) (fdrop xEnv) xN0
       [.run (.submit 24), .run (.confirm 2), .fault (.play 2) 0, .run (.play 2), .fault (.submit 22) 0, .run (.play 3),
